@@ -147,7 +147,17 @@ func (defaultLocker *DefaultLocker) Lock(ctx context.Context, accounts Accounts)
 
 	select {
 	case <-ctx.Done():
-		defaultLocker.intents.RemoveValue(intent)
+		// The intent list is only ever walked under defaultLocker.mu (see recheck), and the lock may have been
+		// granted to this intent concurrently with the cancellation: in that case give it back.
+		defaultLocker.mu.Lock()
+		select {
+		case <-intent.acquired:
+			intent.unlock(ctx, defaultLocker)
+			recheck()
+		default:
+			defaultLocker.intents.RemoveValue(intent)
+		}
+		defaultLocker.mu.Unlock()
 		return nil, errors.Wrapf(ctx.Err(), "locking accounts: %s as read, and %s as write", accounts.Read, accounts.Write)
 	case <-intent.acquired:
 		return releaseIntent, nil
